@@ -58,7 +58,11 @@ class WFQ(Scheduler):
             yield env.process(self.send_packet(packet))
             self.update_vtime()
             class_id = self.flow2class(packet.flow_id)
-            if self.queue_count[class_id] == 0:
+            # queue_count is kept per flow; several flows may share one class
+            if not any(
+                count > 0 and self.flow2class(flow_id) == class_id
+                for flow_id, count in self.queue_count.items()
+            ):
                 self.active_set.remove(class_id)
             if len(self.active_set) == 0:
                 self.reset_vtime()
